@@ -533,6 +533,17 @@ def eval_C18(item):
     segs = [(int(s.idx), float(g[0][0]), float(g[0][1]), float(g[1][0]), float(g[1][1])) for s, g in zip(lc.structures, lc.get_segments())]
     if len(segs) != len(msegs) or any(x[0] != y[0] or max(abs(x[i] - y[i]) for i in range(1, 5)) > 1e-9 for x, y in zip(segs, msegs)):
         res['corr'].append('line collection differs from the model: impl %r model %r' % (segs[:6], msegs[:6]))
+    # the collection handed out is the caller's: its `structures` list may be re-ordered or emptied; a later collection must
+    # still pair every segment with the structure it was drawn for
+    try:
+        lc.structures.sort(key=lambda s_: -s_.idx)
+        impl.use_up(lc.structures)
+    except Exception:
+        pass
+    lcb = p.get_lines()
+    segs_b = [(int(s.idx), float(g[0][0]), float(g[0][1]), float(g[1][0]), float(g[1][1])) for s, g in zip(lcb.structures, lcb.get_segments())]
+    if segs_b != segs:
+        res['pred'].append('get_lines() after the caller changed the `structures` list of an earlier collection: %r, before %r' % (segs_b[:6], segs[:6]))
     # ---- predicates, independent of the model
     leaves = [sid for sid, s in structs.items() if not s['kids']]
     lp = sorted(pos[sid] for sid in leaves)
